@@ -191,6 +191,7 @@ func runC12(c *Checker) {
 	importLayers(c, "C18")
 	// the mailbox callbacks honour the context gbn gives them (gbn.Close cancels it, then waits)
 	ruleCBCTX(c, "EXIT")
+	ruleHandshakeCtx(c)
 	w := c.w
 	gclose := w.Func("(*gbn.GoBackNConn).Close")
 	conn := w.Named("gbn.GoBackNConn")
@@ -922,4 +923,46 @@ func ctxDerived(w *World, v ssa.Value, fCtx *types.Var, depth int) (bool, string
 		return true, "parameter; every caller passes g.ctx or a context derived from it"
 	}
 	return false, w.accessPath(v)
+}
+
+// ruleHandshakeCtx: while the GBN handshake runs the connection has not been handed out, so
+// nobody can call Close: the only thing that ends a handshake that gets no answer is the context
+// the constructor was given. Every blocking select of serverHandshake / clientHandshake and of the
+// reader goroutines they start therefore has a case on ctx.Done() or on a timer.
+func ruleHandshakeCtx(c *Checker) {
+	w := c.w
+	n := 0
+	for _, name := range []string{"(*gbn.GoBackNConn).serverHandshake", "(*gbn.GoBackNConn).clientHandshake"} {
+		fn := w.Func(name)
+		if fn == nil {
+			c.anchorFail(name)
+			continue
+		}
+		for _, f2 := range append([]*ssa.Function{fn}, fn.AnonFuncs...) {
+			k := 0
+			allInstrs(f2, func(in ssa.Instruction) {
+				sel, ok := in.(*ssa.Select)
+				if !ok || !sel.Blocking {
+					return
+				}
+				k++
+				n++
+				cases, _ := w.selectCases(sel)
+				okk := false
+				var descs []string
+				for _, sc := range cases {
+					descs = append(descs, sc.Desc)
+					if sc.IsSend {
+						continue
+					}
+					if strings.Contains(sc.Desc, "ctx.Done()") || strings.Contains(sc.Desc, "time.After") || strings.HasSuffix(sc.Desc, ".C") {
+						okk = true
+					}
+				}
+				c.decide(okk, "EXIT", fmt.Sprintf("%s|wait-%d ends with the constructor's context", fnName(f2), k), instrPos(sel), "a case on ctx.Done() or a timer",
+					"a blocking wait of the handshake (select{"+strings.Join(descs, ",")+"}) has neither a ctx.Done() case nor a timer: when the context is cancelled while the peer is silent the constructor never returns (nobody can call Close on a connection that was not handed out yet)")
+			})
+		}
+	}
+	c.decide(n >= 4, "EXIT", "handshake waits", token.NoPos, fmt.Sprintf("%d blocking waits in the two handshakes", n), fmt.Sprintf("only %d blocking waits found in the handshakes", n))
 }
